@@ -7,6 +7,8 @@
 //!     zero-length ids (<= 4: all) forced through lopdf::verif_hooks,
 //!   * REPEAT times on each rayon pool of 1,2,3,4,8,16 threads with no order forced,
 //!   * by the sequential build of this same file (child process, see `oracle`),
+//! (an encrypted file that the empty password opens is decrypted inside every one of these loads, and its object streams are expanded
+//! only then, by Document::decrypt_raw: no block reaches the hook, the pools and the sequential build are what tells),
 //! and the canonical dumps are compared.  Result: (res (b I..) (z I..) (docs D..)) as the model prints it; verdict FAIL
 //! as soon as two loads of the same bytes give different documents.
 //!
